@@ -101,6 +101,10 @@ NAT_OPS = ["{r}.to_num()", "{r}.to_num()", "{r}.to_bytes().len()", "{r}.count_ch
            "{r}.char_byte_index({n})", "{r}.get({a})", "{r}.insert({a}, {b})", "{r}.has_key({a})", "{r}.remove({a})", "{r}.push({a})",
            "{r}.iter().map({a}).collect()", "{r}.derives({a})", "{r}[{n}]", "{r}[{n}..{a}]", "{r}[{a}]", "{r}[{a}..{b}]", "{r} + {a}", "{r} == {a}", "{r} < {a}", "-{r}", "!{r}", '"${{{r}}}/${{{a}}}"', "String.from({r})",
            "String.from_ascii({a})", "String.from_utf8([{a}, {b}])", "String.from_code_points([{a}])", "type({r})", "({r}, {a})[{b}]"]
+# an argument longer than the receiver (length differences computed in unsigned arithmetic wrap or, in a build with overflow checks, stop
+# the interpreter), at every valid start
+NAT_OPS += ['{r}.find({r} + "x", 0)', '{r}.find("x" + {r}, {n})', '"ab".find("abcdef", {n})', '"".find({a}, 0)', '{r}.find("abcdefghijklmnopqrstuvwxyz", {n})',
+            '{r}.starts_with({r} + "x")', '{r}.ends_with("x" + {r})', '{r}.replace({r} + "x", {a})', '{r}.split({r} + "x")', '{r}.replace("", {a})', '{r}.split("")']
 
 
 def nat_program(seed):
